@@ -9,6 +9,7 @@ import (
 	"go/types"
 	"strings"
 
+	"golang.org/x/tools/go/packages"
 	"golang.org/x/tools/go/ssa"
 )
 
@@ -69,6 +70,16 @@ func runC06(c *Ctx) {
 	}
 
 	c06DeprecatedCategories(c, t)
+	c06SelectorsIndependent(c)
+	{
+		var tp []*packages.Package
+		for _, rel := range []string{"private/bufpkg/bufcheck", pkgCheckUtil, "private/bufpkg/bufconfig"} {
+			if q := p.Pkg(rel); q != nil {
+				tp = append(tp, q)
+			}
+		}
+		ruleTransferComplete(c, "TRANSFER-COMPLETE", tp, 2)
+	}
 	fr := p.Func("private/bufpkg/bufcheck", "newRulesConfig")
 	if fr == nil {
 		c.Fail("RESOLUTION-PIPELINE", "anchor", token.NoPos, "newRulesConfig not found")
